@@ -675,6 +675,28 @@ func (t *ftr) stmt(s ast.Stmt) string {
 		t.loops = append(t.loops, fmt.Sprintf("def %s.cond : %s.St → Option Bool := %s\ndef %s.body (fuel : Nat) : %s.St → Go.Out %s.St %s.R :=\n  %s\ndef %s.post : %s.St → Go.Out %s.St %s.R := %s\n",
 			ln, t.fn, cond, ln, t.fn, t.fn, t.fn, body, ln, t.fn, t.fn, t.fn, post))
 		return fmt.Sprintf("(Go.seq %s (Go.loop %s.cond (%s.body fuel) %s.post fuel))", init, ln, ln, ln)
+	case *ast.RangeStmt:
+		// for _, v := range xs { … }: the elements of the list as it is when the loop starts, in order
+		if s.Key != nil {
+			if id, ok := s.Key.(*ast.Ident); !ok || id.Name != "_" {
+				return t.fail(s, "range with an index variable")
+			}
+		}
+		vid, ok := s.Value.(*ast.Ident)
+		xs := t.x.stateName(s.X)
+		if !ok || xs == "" || s.Tok != token.DEFINE || (t.byName[xs].kind != "ints" && t.byName[xs].kind != "bools") {
+			return t.fail(s, "unsupported range statement")
+		}
+		if obj := t.p.info.Defs[vid]; obj != nil {
+			t.noteObj(vid)
+			t.declare(t.x.identName(vid), obj.Type(), vid)
+		}
+		vn := t.x.identName(vid)
+		if v, known := t.byName[vn]; !known || (t.byName[xs].kind == "ints" && (v.kind != "int" || v.w != t.byName[xs].w)) {
+			return t.fail(s, "range variable of another shape")
+		}
+		body := t.block(s.Body.List)
+		return fmt.Sprintf("(Go.forEach (fun s => s.%s) (fun s x => { s with %s := x })\n    %s)", xs, vn, body)
 	case *ast.SwitchStmt:
 		if s.Init != nil {
 			return t.fail(s, "switch with init statement")
@@ -928,7 +950,7 @@ func writeWireFuncs(p *pkgInfo, outPath string) {
 		"EncodeTag", "EncodeZigZag32", "EncodeZigZag64", "DecodeZigZag32", "DecodeZigZag64",
 		"Decoder.Offset", "Decoder.Reset", "Decoder.DecodeTag", "Decoder.DecodeUInt64", "Decoder.DecodeInt64", "Decoder.DecodeUInt32",
 		"Decoder.DecodeInt32", "Decoder.DecodeSInt32", "Decoder.DecodeSInt64", "Decoder.DecodeFixed32", "Decoder.DecodeFixed64",
-		"Decoder.DecodeBytes", "Decoder.Skip", "Decoder.DecodeBool", "Decoder.More", "Decoder.Seek", "Decoder.DecodePackedUint64", "Decoder.DecodePackedInt64", "Decoder.DecodePackedSint64", "Decoder.DecodePackedSint32", "Decoder.DecodePackedUint32", "Decoder.DecodePackedInt32", "Decoder.DecodePackedFixed64", "Decoder.DecodePackedFixed32", "Decoder.DecodePackedBool", "Encoder.EncodeBool",
+		"Decoder.DecodeBytes", "Decoder.Skip", "Decoder.DecodeBool", "Decoder.More", "Decoder.Seek", "Decoder.DecodePackedUint64", "Decoder.DecodePackedInt64", "Decoder.DecodePackedSint64", "Decoder.DecodePackedSint32", "Decoder.DecodePackedUint32", "Decoder.DecodePackedInt32", "Decoder.DecodePackedFixed64", "Decoder.DecodePackedFixed32", "Decoder.DecodePackedBool", "Encoder.EncodePackedUInt64", "Encoder.EncodeBool",
 		"Encoder.EncodeUInt64", "Encoder.EncodeUInt32", "Encoder.EncodeInt64", "Encoder.EncodeInt32", "Encoder.EncodeSInt32", "Encoder.EncodeSInt64"} {
 		if errs := translateFunc(p, fn, &b); len(errs) > 0 {
 			fmt.Println("wire primitive", fn, "is outside the translatable fragment (Bridge/WireFuncs.lean no longer applies):")
